@@ -24,7 +24,7 @@ from harness import framework, net_common, net_driver as nd
 def run(ctx):
     ctx.mc("net", "IOStreamContract", "MC_IOStreamRead.cfg",
            overrides=ctx.pick({}, {"MaxStream": 5}),
-           required_actions=["Read", "Deliver", "Cond", "CloseLocal"])
+           required_actions=["Read", "Deliver", "Cond", "CloseLocal"], timeout=ctx.pick(900, 3000))
     L = 4
     variants = ctx.pick(nd.VARIANTS[:2], nd.VARIANTS)
     net_common.s2c_stream(ctx, "GenG_IOStreamRead.cfg",
